@@ -231,18 +231,54 @@ fn exec_inner(st: &mut St, cmd: &str) -> String {
             let seed: u64 = toks[2].parse().unwrap();
             let q = st.q.as_ref().expect("no qreg");
             let cells = q.get_probabilities().len();
-            // the standard-normal draws sample_all will make (single-threaded model only)
-            let normals: Vec<f64> = if q.verif_threads() == 1 {
+            // the standard-normal draws sample_all will make: for a single-threaded register
+            // they are reproduced from the seeded generator; with several threads the order of
+            // the draws is not reproducible, so every draw is made the same value g (constant
+            // word mode), which makes the result schedule-independent and known
+            if q.verif_threads() == 1 {
                 qvnt::verif::seed(Some(seed));
                 let mut rng = qvnt::verif::thread_rng();
-                (0..cells).map(|_| rng.sample::<f64, _>(rand_distr::StandardNormal)).collect()
+                let normals: Vec<f64> = (0..cells).map(|_| rng.sample::<f64, _>(rand_distr::StandardNormal)).collect();
+                qvnt::verif::seed(Some(seed));
+                let h = q.sample_all(count);
+                qvnt::verif::seed(None);
+                format!("{} {}", fvec(&normals), nvec(&h))
             } else {
-                Vec::new()
-            };
-            qvnt::verif::seed(Some(seed));
-            let h = q.sample_all(count);
-            qvnt::verif::seed(None);
-            format!("{} {}", fvec(&normals), nvec(&h))
+                // find a word the ziggurat accepts at once (almost all are)
+                let mut word = seed.wrapping_mul(0x9E3779B97F4A7C15) | 1;
+                let mut g = None;
+                for _ in 0..8 {
+                    let w = word;
+                    let (tx, rx) = std::sync::mpsc::channel();
+                    qvnt::verif::constant(Some(w));
+                    std::thread::spawn(move || {
+                        let mut rng = qvnt::verif::thread_rng();
+                        let x: f64 = rng.sample(rand_distr::StandardNormal);
+                        let _ = tx.send(x);
+                    });
+                    match rx.recv_timeout(std::time::Duration::from_millis(300)) {
+                        Ok(x) => {
+                            g = Some(x);
+                            break;
+                        }
+                        Err(_) => {
+                            word = word.rotate_left(17) ^ 0xA5A5_5A5A_1234_5678;
+                        }
+                    }
+                }
+                match g {
+                    Some(g) => {
+                        let h = q.sample_all(count);
+                        qvnt::verif::constant(None);
+                        format!("{} {}", fvec(&vec![g; cells]), nvec(&h))
+                    }
+                    None => {
+                        qvnt::verif::constant(None);
+                        let h = q.sample_all(count);
+                        format!("{} {}", fvec(&[]), nvec(&h))
+                    }
+                }
+            }
         }
         "threads" => rayon::current_num_threads().to_string(),
         "par" => {
@@ -1096,11 +1132,24 @@ fn gen_born_case(r: &mut Rng, max_thr: usize, shots: usize, stats: &mut HashMap<
         cmds.push(format!("op {}", ops::prog_text(&unitary_prog(r, n))));
         cmds.push("apply".into());
     }
+    if r.chance(1, 2) {
+        // a state with one dominant outcome: the (1-p) factor of the variance is visible
+        let thr = if r.chance(1, 2) { 1 } else { r.range(2, max_thr.max(2)) };
+        let size = 1usize << n;
+        let dom = r.below(size);
+        let mut v = vec![C { re: 0.0, im: 0.0 }; size.max(8)];
+        for (i, z) in v.iter_mut().enumerate().take(size) {
+            let a = if i == dom { 0.9 } else { 0.43589 / ((size - 1).max(1) as f64).sqrt() };
+            *z = C { re: a * (0.3 * i as f64).cos(), im: a * (0.3 * i as f64).sin() };
+        }
+        cmds = vec![format!("qreg {n} {thr}"), format!("setpsi {}", cvec(&v))];
+        *stats.entry("dominant".into()).or_default() += 1;
+    }
     cmds.push("probs".into());
     let m = if r.chance(1, 3) { all } else { r.submask(all) | r.kbits(all, 1).unwrap() };
     cmds.push(format!("bornstat {m} {shots}"));
-    if r.chance(1, 2) {
-        cmds.push(format!("samplestat {} {}", 20000 + r.below(20000), 200));
+    if r.chance(2, 3) {
+        cmds.push(format!("samplestat {} {}", 20000 + r.below(20000), 300));
     }
     *stats.entry(format!("n.{n}")).or_default() += 1;
     (format!("n={n} mask={m}"), cmds)
@@ -1486,7 +1535,28 @@ fn gen_fuzz_case(r: &mut Rng, stats: &mut HashMap<String, usize>) -> (String, Ve
             src = format!("{src}\nrz({e}) {};", p.env.qubits()[0]);
             "expr"
         }
-        9 => { src = String::new(); "empty" }
+        9 => {
+            if r.chance(1, 3) {
+                src = String::new();
+                "empty"
+            } else {
+                // names from the wrong scope inside a gate body: a parameter used as a qubit, a
+                // qubit used as a parameter, a global register, another gate's name
+                let pool = ["a", "b", "t", "u", "q", "c", "foo", "pi"];
+                let mut body = String::new();
+                for _ in 0..r.range(1, 3) {
+                    let g = *r.pick(&["rx", "h", "cx", "u1", "foo", "rzz"][..]);
+                    let np = if g == "rx" || g == "u1" || g == "rzz" { 1 } else { 0 };
+                    let nq = if g == "cx" || g == "rzz" { 2 } else { 1 };
+                    let ps: Vec<&str> = (0..np).map(|_| *r.pick(&pool[..])).collect();
+                    let qs: Vec<&str> = (0..nq).map(|_| *r.pick(&pool[..])).collect();
+                    body.push_str(&format!("{g}{} {}; ", if np > 0 { format!("({})", ps.join(",")) } else { String::new() }, qs.join(",")));
+                }
+                let q = p.env.qubits();
+                src = format!("{src}\ngate foo a {{ h a; }}\ngate conf(t,u) a,b {{ {body}}}\nconf(0.5,0.25) {},{};", q[0], q[q.len() - 1]);
+                "scope"
+            }
+        }
         10 => { src = format!("OPENQASM {};\n{src}", *r.pick(&["2.0", "3.0", "2", "", "x"][..])); "version" }
         _ => "valid",
     };
